@@ -36,7 +36,7 @@ func c12FSPrestate() *c12FS {
 	if vm.Bool("childUnderSibling") {
 		parent = s.sib
 	}
-	s.child = parent + "/" + persisters.VerifComponent("C", 1, "ab_")
+	s.child = parent + "/" + persisters.VerifComponent("C", 3, "ab_.")
 	v.Env.AddEntry(s.child, tar.TypeReg, 0, false, "")
 	if s.sib+s.d != s.child {
 		v.Env.AddEntry(s.sib+s.d, tar.TypeDir, 0, false, "")
